@@ -382,8 +382,11 @@ def gen_store_case(rng, rich_records=False):
   paths = gen_paths(rng, rng.randint(1, 6))
   seq_paths = [p for p in paths if rng.chance(0.4)]
   ops = []
+  written = []
   for _ in range(rng.randint(2, 12)):
     p = rng.choice(paths)
+    if written and rng.chance(0.5):
+      p = rng.choice(written)       # bias towards reading / rewriting what exists
     if p in seq_paths:
       k = rng.weighted([(4, 'seqw_a'), (2, 'seqw_w'), (4, 'seqr'), (1, 'exists')])
       if k.startswith('seqw'):
@@ -391,6 +394,7 @@ def gen_store_case(rng, rich_records=False):
         if rich_records:
           pool += ['a\nb', 'end\n', '\n']
         ops.append({'k': 'seqw', 'p': p, 'm': k[-1], 'r': [rng.choice(pool) for _ in range(rng.below(4))]})
+        written.append(p)
       elif k == 'seqr':
         ops.append({'k': 'seqr', 'p': p})
       else:
@@ -399,6 +403,7 @@ def gen_store_case(rng, rich_records=False):
       k = rng.weighted([(5, 'save'), (5, 'load'), (1, 'exists'), (1, 'listdir'), (1, 'write_a'), (1, 'mkdirs')])
       if k == 'save':
         ops.append({'k': 'save', 'p': p, 'v': tg.tree(rng.below(3))})
+        written.append(p)
       elif k == 'load':
         ops.append({'k': 'load', 'p': p})
       elif k == 'exists':
@@ -408,7 +413,7 @@ def gen_store_case(rng, rich_records=False):
       elif k == 'write_a':
         ops.append({'k': 'write', 'p': p, 'c': rng.choice(['', 'tail', '\n', '[1]']), 'm': 'a'})
       else:
-        ops.append({'k': 'mkdirs', 'p': os.path.dirname(p) + '/' + rng.choice(['', 'sub', 'a/b'])})
+        ops.append({'k': 'mkdirs', 'p': os.path.dirname(p) + '/' + rng.choice(['', 'zz_dir', 'zz_dir/sub'])})
   return {'kind': 'store', 'ops': ops}
 
 
@@ -1025,7 +1030,7 @@ class C05(Prop):
     for i in range(n_codec):
       rich = rng.chance(0.25)
       tg = TreeGen(rng, rich=rich)
-      t = tg.tree(rng.randint(0, 4))
+      t = tg.tree(rng.weighted([(1, 0), (3, 1), (4, 2), (3, 3), (2, 4)]))
       if rng.chance(0.12):
         shape = rng.choice(['empty-tuple', 'tuple-marker-list', 'type-key-str', 'type-key-int', 'int-key-prefix'])
         t = inject_reserved(rng, t, shape)
